@@ -89,7 +89,9 @@ def step : Step DS := fun d fs impl =>
   | none, "serve" :: n :: rest =>
     match n.toNat? with
     | some cap =>
-      let s := init cap (rest = ["wait"])
+      -- `w<k>` (grpc.NumStreamWorkers) only changes WHICH goroutine runs a handler, never whether or
+      -- when it runs: the model is the same with and without stream workers
+      let s := init cap (rest.contains "wait")
       let d' := { d with st := some s }
       (d', showSt d' s, "-")
     | none => (d, "bad-op", "-")
